@@ -62,9 +62,16 @@ def sweep_c07():
         for cat in CATS:
             for d in DIRS:
                 for mow in (False, True):
-                    for pos in (0, 1):
+                    for pos in (0, 1, 2):
+                        if pos == 2 and mow:
+                            continue
                         k += 1
-                        a = ('%s %s a' % (d, TYPE_TEXT[cat])).strip()
+                        # position 2: the argument carries an annotation between the (possibly absent) direction and its type
+                        a = ('%s %s%s a' % (d, '@nullable ' if pos == 2 else '', TYPE_TEXT[cat])).strip()
+                        if pos == 2:
+                            lines.append('  void m%d(%s);' % (k, a))
+                            cases.append((cat, d, mow, 0, 'm%d' % k))
+                            continue
                         args = a if pos == 0 else 'in int z, ' + a
                         lines.append('  %svoid m%d(%s);' % ('oneway ' if mow else '', k, args))
                         cases.append((cat, d, mow, pos, 'm%d' % k))
@@ -1087,3 +1094,25 @@ def sweep_doc_text():
         if got != w:
             bad.append({'file': fid, 'text': files[fid], 'what': 'documentation is %r, expected %r' % (got, w)})
     return n, bad
+
+
+def sweep_silent_recovery():
+    """malformed members whose recovery drops no token: each must still give at least one Error (C03: failure is never silent; C14: the error is reported)"""
+    docs = {
+        'i1.aidl': 'package p; interface I { int int y(); void ok(); }',
+        'i2.aidl': 'package p; interface I { void a(); String x const int Y = 3; void ok(); }',
+        'p1.aidl': 'package p; parcelable P { String String y = "s"; int z; }',
+        'e1.aidl': 'package p; enum E { X = , Y }',
+        'e2.aidl': 'package p; enum E { A, @Ann , B }',
+        'i3.aidl': 'package p; interface I { void f(; void ok(); }',
+        'p2.aidl': 'package p; parcelable P { int ; int z; }',
+    }
+    r = replay.project(docs)
+    if 'files' not in r:
+        return len(docs), [{'what': 'replay failed: %s' % str(r)[:200]}]
+    bad = []
+    for fid, text in docs.items():
+        ds = r['files'][fid]['parse']['diags']
+        if not any(d['kind'] == 'Error' for d in ds):
+            bad.append({'file': fid, 'text': text, 'what': 'a malformed member is dropped without any Error', 'tree': r['files'][fid]['parse']['ast'] is not None})
+    return len(docs), bad
